@@ -159,6 +159,39 @@ def stock_transport():
     return out
 
 
+def exogenous_transport():
+    """Exogenous-path transport (concrete side-condition): whichever public route states the G / r paths - with or without the builder's own
+    book paths installed first, once or twice (the later statement wins) - the emitted system carries exactly the path stated last."""
+    from vf.zoolib import _exo_values
+    out = []
+    for name in ('SIM', 'SIMEX1', 'PC'):
+        B = {'SIM': ch3.SIM, 'SIMEX1': ch3.SIMEX1, 'PC': ch4.PC}[name]
+        gov = 'TRE' if name == 'PC' else 'GOV'
+        for book in (False, True):
+            for routes in (('code',), ('object',), ('sector',), ('code', 'sector'), ('sector', 'code'), ('object', 'code'), ('code', 'object')):
+                m = B('CA', use_book_exogenous=book).build_model()
+                targets = [(gov, 'DEM_GOOD', 21.5)] + ([('DEP', 'r', 0.0325)] if name == 'PC' else [])
+                want = {}
+                for i, route in enumerate(routes):
+                    for code, var, base in targets:
+                        path = [base + 0.5 * i + 0.25 * k for k in range(5)]
+                        sec = m['CA'][code]
+                        if route == 'code':
+                            m.AddExogenous(code, var, repr(path))
+                        elif route == 'object':
+                            m.AddExogenous(sec, var, repr(path))
+                        else:
+                            sec.SetExogenous(var, repr(path))
+                        want['%s__%s' % (code, var)] = path
+                ctx = Ctx()
+                ctx.model = m
+                em = emit(ctx)
+                got = _exo_values(em.parser) if em.text else {}
+                ok = em.err is None and all(got.get(v) == p for v, p in want.items())
+                out.append((name, book, routes, ok, 'emitted %r, stated last %r%s' % ({v: got.get(v) for v in want}, want, '' if em.err is None else '; raises %r' % (em.err,))))
+    return out
+
+
 REPLAY = '''
 import sys
 from fractions import Fraction as F
@@ -204,7 +237,8 @@ def run(tier, seed):
                   'numeric domain': 'alpha1, alpha2 in (0,1), theta in [0,1), lambda0..2, G_k, r_k, r_{k-1}, lagged stocks: all reals'}
     chk.assumptions = ['admissibility: 0<alpha1<1, 0<alpha2<1, 0<=theta<1; PC: wealth V != 0 (the book divides by it)',
                        'parameters on the 4-decimal grid the constructors emit (%0.4f is pinned by the test-suite); transport checked concretely',
-                       'initial stocks: the induction leaves lagged stocks free; that stated initial stocks (incl. zeros) become the k=0 state is a concrete side-check']
+                       'initial stocks: the induction leaves lagged stocks free; that stated initial stocks (incl. zeros) become the k=0 state is a concrete side-check',
+                       'exogenous paths: the induction leaves G_k and r_k free; that the path stated last through any public route (model.AddExogenous by code or object, sector.SetExogenous; after or without the builder`s book paths) is the one emitted is a concrete side-check']
     chk.outside = ['numerical agreement of the iterated series (C02 + this give it jointly)', 'off-grid parameter values (documented rounding)']
     for st, rec in pmap(work, ['SIM', 'SIMEX1', 'PC']):
         if st != 'ok':
@@ -236,6 +270,13 @@ def run(tier, seed):
         if not ok:
             chk.violation('stock-transport:%s:%r' % (name, stocks), '%s with stated initial stocks (V, B, YD) = %r: %s' % (name, stocks, detail),
                           'import sys\nfrom vf.props.c09 import stock_transport\nr=[t for t in stock_transport() if t[0]==%r and t[1]==%r][0]\nprint(r)\nsys.exit(0 if r[2] else 1)\n' % (name, stocks))
+    for name, book, routes, ok, detail in exogenous_transport():
+        chk.ob('unsat' if ok else 'sat', distinct=('exogenous-transport', name, book, routes))
+        chk.count('exogenous_transport_checks')
+        if not ok:
+            chk.violation('exogenous-transport:%s:book=%s:%s' % (name, book, '+'.join(routes)),
+                          '%s (builder book paths %s) with the G / r paths stated through %s: %s' % (name, 'installed' if book else 'not installed', ' then '.join(routes), detail[:400]),
+                          'import sys\nfrom vf.props.c09 import exogenous_transport\nr=[t for t in exogenous_transport() if t[:3]==(%r, %r, %r)][0]\nprint(r)\nsys.exit(0 if r[3] else 1)\n' % (name, book, routes))
     from vf.props import c09_iter
     c09_iter.run_into(chk, tier)
     chk.exhaustive = True
